@@ -168,7 +168,7 @@ pub fn hist_cfg(id: &str, thorough: bool) -> Option<HistCfg> {
         "C15" => HistCfg {
             id: "C15",
             on: vec!["C15"],
-            mix: Mix { unstage: 5, stagert: 6, resolve: 4, lowlevel: 1, refresh: 2, reload: 2, timetravel: 2, update: 10, ..base },
+            mix: Mix { unstage: 5, stagert: 6, resolve: 4, lowlevel: 3, refresh: 2, reload: 2, timetravel: 2, update: 10, ..base },
             max_len: len(60, 120),
             n_min: 2,
             n_max: 3,
